@@ -99,6 +99,8 @@ CANARIES = [
     ('good_thomas', 'S', r'destination_index -= self\.width;', 'destination_index -= self.width - 1;', 'reindex_input'),
     ('good_thomas', 'S', r'let start_x = self\.height - quotient;', 'let start_x = self.height - quotient - 1;', 'reindex_output'),
     ('good_thomas', 'S', r'if width > height \{', 'if width > height + 1 {', 'new'),
+    ('avx_raders', 'S', r'\.output_index_mapping\[self\.output_index_mapping\.len\(\) - 1\]', '.output_index_mapping[self.output_index_mapping.len()]', 'finalize_raders'),
+    ('avx_raders', 'S', r'let index_chunk = self\.output_index_mapping\[i\];', 'let index_chunk = self.output_index_mapping[i + 2];', 'finalize_raders'),
     ('sse_radix4', 'S', r'let twiddle_offset = num_vector_columns \* \(ROW_COUNT - 1\);', 'let twiddle_offset = num_vector_columns * ROW_COUNT;', 'perform_fft_immut'),
     ('partial_factors', 'S', r'power3: self\.power3 - divisor\.power3,', 'power3: self.power3 - divisor.power2,', 'divide_by'),
     ('prime_roots', 'S', r'divisor \+= 2;', 'divisor += 4;', 'distinct_prime_factors'),
